@@ -370,6 +370,8 @@ def Expr.ok : Expr → Prop
   | .wth env body awc _ asc b a => env.ok ∧ body.ok ∧ cm awc = [] ∧ asc = [] ∧ TrivOk b ∧ TrivOk a
   | .asrt cond body aac bsc b a => cond.ok ∧ body.ok ∧ cm aac = [] ∧ cm bsc = [] ∧ TrivOk b ∧ TrivOk a
   | .sel e attrs _ ab b a => e.ok ∧ attrs ≠ [] ∧ (∀ x ∈ attrs, solidT x) ∧ cm ab = [] ∧ TrivOk b ∧ TrivOk a
+  | .selOr e attrs _ ab d _ db b a =>
+    e.ok ∧ attrs ≠ [] ∧ (∀ x ∈ attrs, solidT x) ∧ cm ab = [] ∧ d.ok ∧ cm db = [] ∧ TrivOk b ∧ TrivOk a
 def allOk : List Expr → Prop
   | [] => True
   | e :: rest => e.ok ∧ allOk rest
@@ -402,6 +404,8 @@ def Expr.lexOut : Expr → Bool → List Lex
   | .asrt cond body _ _ b a, na =>
     cm b ++ [.tok kwAssert] ++ cond.lexOut false ++ [.tok [';']] ++ (if na then [] else cm a) ++ body.lexOut false
   | .sel e attrs _ _ b a, na => cm b ++ e.lexOut false ++ attrLex attrs ++ (if na then [] else cm a)
+  | .selOr e attrs _ _ d _ _ b a, na =>
+    cm b ++ e.lexOut false ++ attrLex attrs ++ [.tok ['o', 'r']] ++ d.lexOut false ++ (if na then [] else cm a)
 def lexOutAll : List Expr → List Lex
   | [] => []
   | e :: rest => e.lexOut false ++ lexOutAll rest
@@ -525,6 +529,7 @@ theorem ok_after {e : Expr} (h : e.ok) : TrivOk e.after := by
   | wth e bd c g s b a => exact h.2.2.2.2.2
   | asrt c bd x y b a => exact h.2.2.2.2.2
   | sel e ats g ab b a => exact h.2.2.2.2.2
+  | selOr e ats g ab d dg db b a => exact h.2.2.2.2.2.2.2
 
 theorem ok_before {e : Expr} (h : e.ok) : TrivOk e.before := by
   cases e with
@@ -537,6 +542,7 @@ theorem ok_before {e : Expr} (h : e.ok) : TrivOk e.before := by
   | wth e bd c g s b a => exact h.2.2.2.2.1
   | asrt c bd x y b a => exact h.2.2.2.2.1
   | sel e ats g ab b a => exact h.2.2.2.2.1
+  | selOr e ats g ab d dg db b a => exact h.2.2.2.2.2.2.1
 
 theorem leafBefore_nil' (k : LeafKind) (t : Text) (i : Nat) (inl : Bool) : leafBefore k t [] i inl = [] := by
   unfold leafBefore; split
@@ -580,6 +586,9 @@ theorem rebuildAP_indent_split {e : Expr} (h : e.before = []) (na : Bool) (i : N
     simp only [Expr.before] at h; subst h
     simp [Expr.rebuildAP, addTriviaP, fmtP, fmtGoP, indentP]
   | sel e ats g ab b a =>
+    simp only [Expr.before] at h; subst h
+    simp [Expr.rebuildAP, addTriviaP, fmtP, fmtGoP, indentP]
+  | selOr e ats g ab d dg db b a =>
     simp only [Expr.before] at h; subst h
     simp [Expr.rebuildAP, addTriviaP, fmtP, fmtGoP, indentP]
   | asrt c bd x y b a =>
@@ -749,6 +758,7 @@ theorem rebuildAP_lex : (e : Expr) → e.ok → ∀ (na : Bool) (i : Nat) (b : B
       | wth e bd c g s b a => exact hv.2.2.2.2.2
       | asrt c bd x y b a => exact hv.2.2.2.2.2
       | sel e ats g ab b a => exact hv.2.2.2.2.2
+      | selOr e ats g ab d dg db b a => exact hv.2.2.2.2.2.2.2
     have hbt := bindingTailP_lex (trivOk_append hva (ite_nil_ok na ha)) i
     have hi := indentP_lex i b
     simp only [Expr.rebuildAP, Expr.lexOut]
@@ -913,6 +923,32 @@ theorem rebuildAP_lex : (e : Expr) → e.ok → ∀ (na : Bool) (i : Nat) (b : B
           (FP.tok ['.'] :: attrP attrs)) from by simp]
       rw [lexOf_append, lexOf_ws, hap.1, ihe.1]
     rw [this]; simp [cm_ite_nil]
+  | .selOr expr attrs g ab d dg db before after, hok, na, i, b => by
+    obtain ⟨he, hne, hat, _, hd, _, hb, ha⟩ := hok
+    have ihe := rebuildAP_lex expr he false i true
+    have ihd := rebuildAP_lex d hd false (selOrIndent dg i) true
+    simp only [Expr.rebuildAP, Expr.lexOut]
+    have hap := attrP_lex attrs hne hat
+    have hcore : lexOf (expr.rebuildAP false i true ++ [FP.ws (selSep (concat (expr.rebuildAP false i true)) g ab i), FP.tok ['.']] ++
+          attrP attrs ++ [FP.ws (selOrSep dg db i), FP.tok ['o', 'r'], FP.ws [' ']] ++
+          d.rebuildAP false (selOrIndent dg i) true) =
+          expr.lexOut false ++ attrLex attrs ++ [Lex.tok ['o', 'r']] ++ d.lexOut false ∧
+        Solid (expr.rebuildAP false i true ++ [FP.ws (selSep (concat (expr.rebuildAP false i true)) g ab i), FP.tok ['.']] ++
+          attrP attrs ++ [FP.ws (selOrSep dg db i), FP.tok ['o', 'r'], FP.ws [' ']] ++
+          d.rebuildAP false (selOrIndent dg i) true) := by
+      rw [show expr.rebuildAP false i true ++ [FP.ws (selSep (concat (expr.rebuildAP false i true)) g ab i), FP.tok ['.']] ++
+          attrP attrs ++ [FP.ws (selOrSep dg db i), FP.tok ['o', 'r'], FP.ws [' ']] ++
+          d.rebuildAP false (selOrIndent dg i) true =
+        expr.rebuildAP false i true ++ (FP.ws (selSep (concat (expr.rebuildAP false i true)) g ab i) ::
+          ((FP.tok ['.'] :: attrP attrs) ++ (FP.ws (selOrSep dg db i) :: FP.tok ['o', 'r'] :: FP.ws [' '] ::
+          d.rebuildAP false (selOrIndent dg i) true))) from by simp]
+      refine ⟨?_, solid_append ihe.2 (solid_wsc _ (solid_append hap.2 (solid_wsc _
+        (solid_cons (p := FP.tok ['o', 'r']) ⟨by simp, by simp [endsWithNL]⟩ (solid_wsc _ ihd.2)))))⟩
+      rw [lexOf_append, lexOf_ws, lexOf_append, hap.1, lexOf_ws, lexOf_tok, lexOf_ws, ihe.1, ihd.1]
+      simp
+    have hatp := addTriviaP_lex hb (ite_nil_ok na ha) hcore.2 i b
+    refine ⟨?_, hatp.2⟩
+    rw [hatp.1, hcore.1]; simp [cm_ite_nil]
 theorem rebuildAllP_lex : (es : List Expr) → allOk es → ∀ (i : Nat) (b : Bool),
     ((rebuildAllP es i b).map lexOf).flatten = lexOutAll es ∧ ∀ x ∈ rebuildAllP es i b, Solid x
   | [], _, i, b => ⟨rfl, by intro x hx; cases hx⟩
@@ -936,6 +972,7 @@ theorem previewP_lex : (e : Expr) → e.ok → ∀ (i : Nat) (p : List FP), e.pr
   | .wth .., _, i, p, h => by simp [Expr.previewP] at h
   | .asrt .., _, i, p, h => by simp [Expr.previewP] at h
   | .sel .., _, i, p, h => by simp [Expr.previewP] at h
+  | .selOr .., _, i, p, h => by simp [Expr.previewP] at h
   | .list value ml inner before after, hok, i, p, h => by
     obtain ⟨hv, hin, hb, ha⟩ := hok
     have ih := fun i b => rebuildAllP_lex value hv i b
